@@ -278,7 +278,8 @@ class Constraints:
         
     def computeDTfromTemperature(self, n, temperatures, dtPrev, dtMax):
         if self.checkTemperature and n > 0:
-            Tchange = temperatures[n] - temperatures[n-1]
+            #Cooling is limited like heating
+            Tchange = np.abs(temperatures[n] - temperatures[n-1])
             dtTemp = dtMax
             if Tchange > self.maxNonIsothermalDT:
                 dtTemp = self.maxNonIsothermalDT * dtPrev / Tchange
